@@ -85,7 +85,9 @@ var c15Leaves = []devLeaf{
 	{"/types/u64", func(i int) *sdcpb.TypedValue { return tvU(18446744073709551613 + uint64(i%3)) }},
 	{"/types/en", func(i int) *sdcpb.TypedValue { return strTv([]string{"one", "two", "t-h-r-e-e"}[i%3]) }},
 	{"/types/bool", func(i int) *sdcpb.TypedValue { return tvB(i%2 == 1) }},
-	{"/sys/dns", func(i int) *sdcpb.TypedValue { return [](*sdcpb.TypedValue){tvLL("a"), tvLL("a", "b"), tvLL("b", "a")}[i%3] }},
+	{"/sys/dns", func(i int) *sdcpb.TypedValue {
+		return [](*sdcpb.TypedValue){tvLL("a"), tvLL("a", "b"), tvLL("b", "a")}[i%3]
+	}},
 	{"/ifx", func(i int) *sdcpb.TypedValue { return strTv([]string{"s", "t", "u"}[i%3]) }},
 }
 
@@ -106,191 +108,221 @@ func (c *c15) RunCase(w *core.Worker, idx int, seed uint64, res *core.CaseResult
 		name string
 		prio int32
 	}{{"oa", 10}, {"ob", 20}, {"oc", 30}}
-	nLeaves := 4 + rng.Intn(11)
-	perm := rng.Perm(len(c15Leaves))
-	type leafState struct {
-		intents map[string]string // owner -> value
-		running *string
-	}
-	var want []devMsg
-	state := []string{}
+	// several cycles on ONE datastore object: between the cycles the stores are rewritten (values change, paths
+	// disappear from running, intents come and go), so anything the datastore carries over from one cycle to the next shows
 	multi, missing := false, false
-	intended := map[string][]*cache.Update{} // owner -> updates
-	var running []*cache.Update
-	mkUpd := func(path string, tv *sdcpb.TypedValue) *cache.Update {
-		b, _ := proto.Marshal(tv)
-		return cache.NewUpdate(strings.Split(model.CachePath(model.Parse(path)), ","), b, 0, "", 0)
-	}
-	for li := 0; li < nLeaves && li < len(perm); li++ {
-		l := c15Leaves[perm[li]]
-		nint := rng.Intn(4)
-		vals := map[string]int{}
-		ownerPerm := rng.Perm(3)
-		for i := 0; i < nint; i++ {
-			o := owners[ownerPerm[i]]
-			vals[o.name] = rng.Intn(3)
-		}
-		// running: 0 agrees with ruler, 1 differs from all, 2 agrees with some value, 3 missing
-		rmode := rng.Intn(4)
-		var ruler string
+	var allStates []string
+	prevIntended := map[string][][]string{}
+	var prevRunning [][]string
+	for round := 0; round < 3 && len(res.Findings) == 0; round++ {
+		nLeaves := 4 + rng.Intn(11)
+		perm := rng.Perm(len(c15Leaves))
+		var want []devMsg
+		state := []string{}
+		intended := map[string][]*cache.Update{} // owner -> updates
+		var running []*cache.Update
+		// remove what the previous round wrote
 		for _, o := range owners {
-			if _, ok := vals[o.name]; ok {
-				ruler = o.name
-				break
+			if len(prevIntended[o.name]) > 0 {
+				if err := c.env.Cache.Modify(ctx, ds.Name, &cache.Opts{Store: cachepb.Store_INTENDED, Owner: o.name, Priority: o.prio}, prevIntended[o.name], nil); err != nil {
+					res.Inconclusive("C15/setup", "%v", err)
+					return
+				}
 			}
 		}
-		var rv *sdcpb.TypedValue
-		switch {
-		case rmode == 3:
-			missing = missing || nint > 0
-		case ruler == "" || rmode == 1:
-			rv = l.mk(rng.Intn(3))
-		case rmode == 0:
-			rv = l.mk(vals[ruler])
-		default:
-			rv = l.mk(rng.Intn(3))
-		}
-		if ruler == "" && rv == nil {
-			continue
-		}
-		desc := l.path + " intents{"
-		for _, o := range owners {
-			if vi, ok := vals[o.name]; ok {
-				tv := l.mk(vi)
-				intended[o.name] = append(intended[o.name], mkUpd(l.path, tv))
-				desc += fmt.Sprintf("%s(p%d)=%s ", o.name, o.prio, model.TvString(tv))
-			}
-		}
-		desc += "} running="
-		if rv != nil {
-			running = append(running, mkUpd(l.path, rv))
-			desc += model.TvString(rv)
-		} else {
-			desc += "<missing>"
-		}
-		state = append(state, desc)
-		// reference
-		p := model.Parse(l.path).String()
-		if ruler == "" {
-			want = append(want, devMsg{"UNHANDLED", "", p, "<nil>", model.TvString(rv)})
-			continue
-		}
-		rulerVal := model.TvString(l.mk(vals[ruler]))
-		cur := "<nil>"
-		if rv != nil {
-			cur = model.TvString(rv)
-		}
-		if rv == nil || cur != rulerVal {
-			want = append(want, devMsg{"NOT_APPLIED", ruler, p, rulerVal, cur})
-		}
-		distinctVals := map[string]bool{}
-		for _, o := range owners {
-			vi, ok := vals[o.name]
-			if !ok || o.name == ruler {
-				continue
-			}
-			v := model.TvString(l.mk(vi))
-			distinctVals[v] = true
-			if v != rulerVal {
-				want = append(want, devMsg{"OVERRULED", o.name, p, v, rulerVal})
-				multi = true
-			}
-		}
-	}
-	for _, o := range owners {
-		if len(intended[o.name]) > 0 {
-			if err := c.env.Cache.Modify(ctx, ds.Name, &cache.Opts{Store: cachepb.Store_INTENDED, Owner: o.name, Priority: o.prio}, nil, intended[o.name]); err != nil {
+		if len(prevRunning) > 0 {
+			if err := c.env.Cache.Modify(ctx, ds.Name, &cache.Opts{Store: cachepb.Store_CONFIG}, prevRunning, nil); err != nil {
 				res.Inconclusive("C15/setup", "%v", err)
 				return
 			}
 		}
-	}
-	if len(running) > 0 {
-		if err := c.env.Cache.Modify(ctx, ds.Name, &cache.Opts{Store: cachepb.Store_CONFIG}, nil, running); err != nil {
-			res.Inconclusive("C15/setup", "%v", err)
-			return
+		prevIntended, prevRunning = map[string][][]string{}, nil
+		mkUpd := func(path string, tv *sdcpb.TypedValue) *cache.Update {
+			b, _ := proto.Marshal(tv)
+			return cache.NewUpdate(strings.Split(model.CachePath(model.Parse(path)), ","), b, 0, "", 0)
 		}
-	}
-	sort.Strings(state)
-	for _, s := range state {
-		res.Tracef("%s", s)
-	}
-	st := fixture.NewFakeStream[*sdcpb.WatchDeviationResponse](ctx)
-	panicked := apiCall(res, "deviation cycle", func() {
-		ds.VerifDeviationCycle(ctx, map[string]sdcpb.DataServer_WatchDeviationsServer{"peer": st})
-	})
-	st.Cancel()
-	if panicked {
-		return
-	}
-	msgs := st.Sent
-	res.Count("cycles", 1)
-	res.Count("messages", len(msgs))
-	if len(msgs) == 0 || msgs[0].GetEvent() != sdcpb.DeviationEvent_START {
-		res.Violate("C15/no-start-first", "the cycle does not begin with START (%d messages)", len(msgs))
-	}
-	if len(msgs) == 0 || msgs[len(msgs)-1].GetEvent() != sdcpb.DeviationEvent_END {
-		res.Violate("C15/no-end-last", "the cycle does not finish with END (%d messages)", len(msgs))
-	}
-	var got []devMsg
-	for i, m := range msgs {
-		switch m.GetEvent() {
-		case sdcpb.DeviationEvent_START, sdcpb.DeviationEvent_END:
-			if i != 0 && i != len(msgs)-1 {
-				res.Violate("C15/bracket-in-the-middle", "message %d is %s", i, m.GetEvent())
+		for li := 0; li < nLeaves && li < len(perm); li++ {
+			l := c15Leaves[perm[li]]
+			nint := rng.Intn(4)
+			vals := map[string]int{}
+			ownerPerm := rng.Perm(3)
+			for i := 0; i < nint; i++ {
+				o := owners[ownerPerm[i]]
+				vals[o.name] = rng.Intn(3)
 			}
-			continue
-		}
-		if m.GetName() != ds.Name {
-			res.Violate("C15/wrong-datastore-name", "message names datastore %q", m.GetName())
-		}
-		exp, cur := "<nil>", "<nil>"
-		if m.GetExpectedValue() != nil {
-			exp = model.TvString(m.GetExpectedValue())
-		}
-		if m.GetCurrentValue() != nil {
-			cur = model.TvString(m.GetCurrentValue())
-		}
-		got = append(got, devMsg{m.GetReason().String(), m.GetIntent(), model.FromPb(m.GetPath()).String(), exp, cur})
-	}
-	count := func(l []devMsg) map[devMsg]int {
-		m := map[devMsg]int{}
-		for _, x := range l {
-			m[x]++
-		}
-		return m
-	}
-	gw, gg := count(want), count(got)
-	for m, n := range gw {
-		if gg[m] < n {
-			key := "C15/deviation-not-reported/" + m.reason
-			// is there a message for the same reason, intent and path with other values?
-			for g := range gg {
-				if g.reason == m.reason && g.intent == m.intent && g.path == m.path && g != m {
-					key = "C15/deviation-reported-with-wrong-values/" + m.reason
+			// running: 0 agrees with ruler, 1 differs from all, 2 agrees with some value, 3 missing
+			rmode := rng.Intn(4)
+			var ruler string
+			for _, o := range owners {
+				if _, ok := vals[o.name]; ok {
+					ruler = o.name
+					break
 				}
 			}
-			res.Violate(key, "expected %s\n  stores: %s\n  reported: %v", m, strings.Join(state, " | "), got)
-		}
-	}
-	for m, n := range gg {
-		if gw[m] < n {
-			if matchedWithOtherValues(m, gw) {
-				continue // already reported above
+			var rv *sdcpb.TypedValue
+			switch {
+			case rmode == 3:
+				missing = missing || nint > 0
+			case ruler == "" || rmode == 1:
+				rv = l.mk(rng.Intn(3))
+			case rmode == 0:
+				rv = l.mk(vals[ruler])
+			default:
+				rv = l.mk(rng.Intn(3))
 			}
-			res.Violate("C15/spurious-deviation/"+m.reason, "reported %s which is no deviation by the statement\n  stores: %s", m, strings.Join(state, " | "))
+			if ruler == "" && rv == nil {
+				continue
+			}
+			desc := l.path + " intents{"
+			for _, o := range owners {
+				if vi, ok := vals[o.name]; ok {
+					tv := l.mk(vi)
+					intended[o.name] = append(intended[o.name], mkUpd(l.path, tv))
+					desc += fmt.Sprintf("%s(p%d)=%s ", o.name, o.prio, model.TvString(tv))
+				}
+			}
+			desc += "} running="
+			if rv != nil {
+				running = append(running, mkUpd(l.path, rv))
+				desc += model.TvString(rv)
+			} else {
+				desc += "<missing>"
+			}
+			state = append(state, desc)
+			// reference
+			p := model.Parse(l.path).String()
+			if ruler == "" {
+				want = append(want, devMsg{"UNHANDLED", "", p, "<nil>", model.TvString(rv)})
+				continue
+			}
+			rulerVal := model.TvString(l.mk(vals[ruler]))
+			cur := "<nil>"
+			if rv != nil {
+				cur = model.TvString(rv)
+			}
+			if rv == nil || cur != rulerVal {
+				want = append(want, devMsg{"NOT_APPLIED", ruler, p, rulerVal, cur})
+			}
+			distinctVals := map[string]bool{}
+			for _, o := range owners {
+				vi, ok := vals[o.name]
+				if !ok || o.name == ruler {
+					continue
+				}
+				v := model.TvString(l.mk(vi))
+				distinctVals[v] = true
+				if v != rulerVal {
+					want = append(want, devMsg{"OVERRULED", o.name, p, v, rulerVal})
+					multi = true
+				}
+			}
+		}
+		for _, o := range owners {
+			if len(intended[o.name]) > 0 {
+				if err := c.env.Cache.Modify(ctx, ds.Name, &cache.Opts{Store: cachepb.Store_INTENDED, Owner: o.name, Priority: o.prio}, nil, intended[o.name]); err != nil {
+					res.Inconclusive("C15/setup", "%v", err)
+					return
+				}
+			}
+		}
+		if len(running) > 0 {
+			if err := c.env.Cache.Modify(ctx, ds.Name, &cache.Opts{Store: cachepb.Store_CONFIG}, nil, running); err != nil {
+				res.Inconclusive("C15/setup", "%v", err)
+				return
+			}
+		}
+		for _, o := range owners {
+			for _, u := range intended[o.name] {
+				prevIntended[o.name] = append(prevIntended[o.name], u.GetPath())
+			}
+		}
+		for _, u := range running {
+			prevRunning = append(prevRunning, u.GetPath())
+		}
+		sort.Strings(state)
+		res.Tracef("cycle %d", round)
+		for _, s := range state {
+			res.Tracef("%s", s)
+		}
+		st := fixture.NewFakeStream[*sdcpb.WatchDeviationResponse](ctx)
+		panicked := apiCall(res, "deviation cycle", func() {
+			ds.VerifDeviationCycle(ctx, map[string]sdcpb.DataServer_WatchDeviationsServer{"peer": st})
+		})
+		st.Cancel()
+		if panicked {
+			return
+		}
+		msgs := st.Sent
+		res.Count("cycles", 1)
+		res.Count("messages", len(msgs))
+		if len(msgs) == 0 || msgs[0].GetEvent() != sdcpb.DeviationEvent_START {
+			res.Violate("C15/no-start-first", "the cycle does not begin with START (%d messages)", len(msgs))
+		}
+		if len(msgs) == 0 || msgs[len(msgs)-1].GetEvent() != sdcpb.DeviationEvent_END {
+			res.Violate("C15/no-end-last", "the cycle does not finish with END (%d messages)", len(msgs))
+		}
+		var got []devMsg
+		for i, m := range msgs {
+			switch m.GetEvent() {
+			case sdcpb.DeviationEvent_START, sdcpb.DeviationEvent_END:
+				if i != 0 && i != len(msgs)-1 {
+					res.Violate("C15/bracket-in-the-middle", "message %d is %s", i, m.GetEvent())
+				}
+				continue
+			}
+			if m.GetName() != ds.Name {
+				res.Violate("C15/wrong-datastore-name", "message names datastore %q", m.GetName())
+			}
+			exp, cur := "<nil>", "<nil>"
+			if m.GetExpectedValue() != nil {
+				exp = model.TvString(m.GetExpectedValue())
+			}
+			if m.GetCurrentValue() != nil {
+				cur = model.TvString(m.GetCurrentValue())
+			}
+			got = append(got, devMsg{m.GetReason().String(), m.GetIntent(), model.FromPb(m.GetPath()).String(), exp, cur})
+		}
+		count := func(l []devMsg) map[devMsg]int {
+			m := map[devMsg]int{}
+			for _, x := range l {
+				m[x]++
+			}
+			return m
+		}
+		gw, gg := count(want), count(got)
+		for m, n := range gw {
+			if gg[m] < n {
+				key := "C15/deviation-not-reported/" + m.reason
+				// is there a message for the same reason, intent and path with other values?
+				for g := range gg {
+					if g.reason == m.reason && g.intent == m.intent && g.path == m.path && g != m {
+						key = "C15/deviation-reported-with-wrong-values/" + m.reason
+					}
+				}
+				res.Violate(key, "expected %s\n  stores: %s\n  reported: %v", m, strings.Join(state, " | "), got)
+			}
+		}
+		for m, n := range gg {
+			if gw[m] < n {
+				if matchedWithOtherValues(m, gw) {
+					continue // already reported above
+				}
+				res.Violate("C15/spurious-deviation/"+m.reason, "reported %s which is no deviation by the statement\n  stores: %s", m, strings.Join(state, " | "))
+			}
+		}
+		res.Count("deviations_expected", len(want))
+		allStates = append(allStates, fmt.Sprintf("cycle %d", round))
+		allStates = append(allStates, state...)
+		if idx < 2 && round == 0 {
+			w := []string{}
+			for _, m := range want {
+				w = append(w, m.String())
+			}
+			res.Sample = map[string]any{"stores": state, "expected": w}
 		}
 	}
-	res.Count("deviations_expected", len(want))
-	res.Hash = core.HashOf(state...)
+	res.Hash = core.HashOf(allStates...)
 	res.NonTrivial = multi && missing
-	if idx < 2 {
-		w := []string{}
-		for _, m := range want {
-			w = append(w, m.String())
-		}
-		res.Sample = map[string]any{"stores": state, "expected": w}
-	}
 }
 
 func matchedWithOtherValues(m devMsg, want map[devMsg]int) bool {
